@@ -6,18 +6,16 @@ from ..report import Report
 
 def run(tier, seed):
     rep = Report("C05", tier, seed, "other")
-    try:
-        from .. import lang
-        lang.add_url_obligations(rep, "C05")
-    except ImportError:
-        pass
+    from .. import typestate
+    typestate.add_url_obligations(rep, "C05")
     rep.bounded.append(bounded.run("vf.oracles2:c05_urls", "list", 0, ["commonmark", "js-default", "zero", "cm+typo"], "link/image/autolink/reference producers",
                                    "every href/src attribute is URL-safe ASCII and has no javascript:/vbscript:/file:/data: scheme (data:image/gif|png|jpeg|webp excepted)",
                                    "scheme-spelling universe x 8 producer templates; distinct = distinct (count, token signature)", items=oracles2.c05_docs(), universe="scheme spellings x producers"))
     lines_universe(rep, "vf.oracles2:c05_urls", tier, "MarkdownIt.parse", "same URL contract on the line universe", cfgs=["commonmark", "js-default"], wrapped=False)
     inline_universe(rep, "vf.oracles2:c05_urls", tier, "MarkdownIt.parse", "same URL contract on the inline universe", cfgs=["commonmark"], quick_k=3, thorough_k=4)
-    rep.explanation = ("Mixed. Deductive (when the language back end ran): validateLink's regex literals read from the source exclude the dangerous language; typestate at "
-                       "the href/src store sites. Bounded: URL contract monitored on all tokens over the scheme universe and the line/inline universes.")
+    rep.explanation = ("Mixed. Deductive: LANG - no URL accepted by validateLink (its own control structure and regex literals, translated with Python's regex parser, after strip+lower) lies in the "
+                       "dangerous-scheme language (z3 regex solver); TYPESTATE - at every href/src store site of the six producers, and at the writer of env references, the value is '' or normalizeLink's result tested "
+                       "by validateLink on that path, or read from env references. Bounded: URL contract monitored on all tokens over the scheme universe and the line/inline universes.")
     rep.trusted_base = STD_TRUST
     rep.assumptions = ["mdurl.encode returns only URL-safe ASCII (assumed contract on the dependency; its output alphabet is checked on the bounded inputs)"]
     return rep
